@@ -669,6 +669,29 @@ namespace
                         h.overrides = { { i, s } };
                         specs.push_back(h);
                     }
+            if (maxov >= 1 && g.kind == RASTER)
+            {
+                // raw (row, col) keys that are out of range in one dimension only (the flat
+                // index row * ncols + col may still be a valid one), and in both
+                std::vector<std::array<int, 2>> keys;
+                for (int r = 0; r < g.nr; ++r)
+                {
+                    keys.push_back({ r, g.nc });
+                    keys.push_back({ r, g.nc + 1 });
+                }
+                for (int c = 0; c < g.nc; ++c)
+                    keys.push_back({ g.nr, c });
+                keys.push_back({ g.nr, g.nc });
+                keys.push_back({ 0, 2 * g.nc });
+                keys.push_back({ g.nr - 1, g.nc - 1 });  // in range: must be accepted
+                for (auto& k : keys)
+                    for (int s = 0; s < 4; ++s)
+                    {
+                        GridSpec h = g;
+                        h.overrides = { { 100000 + k[0] * 100 + k[1], s } };
+                        specs.push_back(h);
+                    }
+            }
             if (maxov >= 2)
                 for (int i = 0; i < n; ++i)
                     for (int j = i + 1; j < n; ++j)
